@@ -26,6 +26,7 @@ import (
 	"go.etcd.io/etcd/clientv3"
 	"pdverif/vkit"
 	"pdverif/vkit/etcdfix"
+	"pdverif/vkit/gate"
 	"pgregory.net/rapid"
 )
 
@@ -52,6 +53,13 @@ type SOp struct {
 	Late bool `json:"late,omitempty"`
 	// checkFault: the first etcd request about suffixes of M's checker fails: range | txn | lostack
 	Fail string `json:"fail,omitempty"`
+	// crace: N new dc-locations join (extras X, X+1, ...), then T dc-location checker runs of the CURRENT PD
+	// leader's manager overlap: released one etcd request at a time in the order Sched (an entry picks among the
+	// parked requests, ordered by task), or, with Real, started together under the real scheduler
+	N     int   `json:"n,omitempty"`
+	T     int   `json:"t,omitempty"`
+	Sched []int `json:"sched,omitempty"`
+	Real  bool  `json:"real,omitempty"`
 }
 
 type SCase struct {
@@ -84,7 +92,25 @@ func genSuffix(t *rapid.T) SCase {
 	fails := []string{"range", "txn", "lostack"}
 	n := rapid.IntRange(4, 24).Draw(t, "nops")
 	for i := 0; i < n; i++ {
-		switch rapid.IntRange(0, 21).Draw(t, "kind") {
+		switch rapid.IntRange(0, 24).Draw(t, "kind") {
+		case 22, 23, 24:
+			op := SOp{K: "crace", DC: dc("dc"), X: rapid.IntRange(0, nExtras-1).Draw(t, "x"),
+				N: rapid.IntRange(2, 3).Draw(t, "newdcs"), T: rapid.IntRange(2, 3).Draw(t, "runs")}
+			switch rapid.IntRange(0, 3).Draw(t, "mode") {
+			case 0:
+				op.Real = true
+			case 1:
+				// round robin: every run reads before any run writes
+				for k := 0; k < 24; k++ {
+					op.Sched = append(op.Sched, k%op.T)
+				}
+			default:
+				op.Sched = rapid.SliceOfN(rapid.IntRange(0, 2), 0, 24).Draw(t, "sched")
+			}
+			if rapid.IntRange(0, 2).Draw(t, "withLeader") == 0 {
+				c.Ops = append(c.Ops, SOp{K: "leader", M: mem("m")})
+			}
+			c.Ops = append(c.Ops, op)
 		case 16, 17:
 			// the PD leader runs the real campaign path of a local allocator (allocatorLeaderLoop) for a dc-location it knows
 			c.Ops = append(c.Ops, SOp{K: "alloc", DC: dc("dc")})
@@ -605,6 +631,20 @@ func runSuffix(c SCase) (vkit.Info, error) {
 		case "checkFault":
 			w.checkFault(w.nodes[m%c.NM], op.Fail)
 			info.Class("check-with-etcd-fault-" + op.Fail)
+		case "crace":
+			ran, err := w.crace(step, op, mayJoin, joined)
+			if w.incon {
+				info.Inconclusive = true
+				return info, nil
+			}
+			if err != nil {
+				return info, err
+			}
+			if ran && op.Real {
+				info.Class("overlapping-leader-checkers-real-scheduler")
+			} else if ran {
+				info.Class("overlapping-leader-checkers-scheduled")
+			}
 		case "race":
 			ran, err := w.race(step, op, c.NM, mayJoin, joined, &info)
 			if w.incon {
@@ -956,4 +996,91 @@ func (w *sworld) checkFault(n *snode, kind string) {
 	}, nil)
 	n.am.ClusterDCLocationChecker()
 	w.sl[n.idx].hooks.Set(nil, nil)
+}
+
+// crace: N dc-locations that have no suffix yet join, then T runs of the current PD leader's
+// ClusterDCLocationChecker overlap. Scheduled mode: every etcd request of the runs (the range over the dc-location
+// keys, the range over the suffix keys and the create txn of getOrCreateLocalTSOSuffix) is a scheduling point; a run
+// that waits for the manager's lock held by a parked run is a normal settled state (non-strict gate).
+func (w *sworld) crace(step int, op SOp, mayJoin func(string) bool, joined map[string]bool) (bool, error) {
+	if w.leader < 0 {
+		return false, nil
+	}
+	n := w.nodes[w.leader]
+	suff, err := w.etcdSuffixes()
+	if err != nil {
+		return false, fmt.Errorf("op %d: %v", step, err)
+	}
+	added := 0
+	for i, k := 0, 0; i < nDCNames && k < op.N; i++ {
+		dc := dcName((op.DC + i) % nDCNames)
+		if _, used := distinctDCs(w.dcOf)[dc]; used || suff[dc] != 0 || !mayJoin(dc) {
+			continue
+		}
+		id := extraID((op.X + k) % nExtras)
+		if w.f.PutRaw(path.Join(w.root, "dc-location", fmt.Sprint(id)), dc) != nil {
+			w.incon = true
+			return false, nil
+		}
+		w.dcOf[id] = dc
+		joined[dc] = true
+		k++
+		added++
+	}
+	if added < 2 {
+		return false, nil
+	}
+	runs := op.T
+	if runs < 2 {
+		runs = 2
+	}
+	if runs > 3 {
+		runs = 3
+	}
+	if op.Real {
+		start := make(chan struct{})
+		var wg sync.WaitGroup
+		for r := 0; r < runs; r++ {
+			wg.Add(1)
+			go func() {
+				defer wg.Done()
+				<-start
+				n.am.ClusterDCLocationChecker()
+			}()
+		}
+		close(start)
+		done := make(chan struct{})
+		go func() { wg.Wait(); close(done) }()
+		select {
+		case <-done:
+		case <-time.After(20 * time.Second):
+			w.incon = true
+			return false, nil
+		}
+		return true, nil
+	}
+	sc := gate.New()
+	sc.Watchdog = 10 * time.Second
+	w.sl[n.idx].hooks.Set(func(ev *etcdfix.Event) etcdfix.Action {
+		key := ""
+		if len(ev.Keys) > 0 {
+			key = strings.TrimPrefix(ev.Keys[0], w.root)
+		}
+		if sc.Enter(ev.Method, key) != nil {
+			return etcdfix.FailBefore
+		}
+		return etcdfix.Proceed
+	}, nil)
+	for r := 0; r < runs; r++ {
+		sc.Go(r+1, func() { n.am.ClusterDCLocationChecker() })
+	}
+	ok := sc.Run(op.Sched, nil)
+	sc.Disable()
+	finished := sc.Wait(20 * time.Second)
+	w.sl[n.idx].hooks.Set(nil, nil)
+	if !ok || !finished {
+		w.incon = true
+		return false, nil
+	}
+	return true, nil
 }
